@@ -231,16 +231,31 @@ Tick ==
   /\ Do([NoStep EXCEPT !.op = "tick"])
   /\ UNCHANGED <<sHi, sRtcp, sent, got, start>>
 
+SentIdx(proto, k) == {p.idx : p \in {pp \in sent : pp.proto = proto /\ pp.ssrc = k}}
+CtxOf(k) == IF rx[k].on THEN rx[k] ELSE FreshCtx
+
+ForgeRtpAny ==
+  \/ \E kind \in RtpForgeKinds \cap BaseKinds, k \in Ssrcs : \E base \in SentIdx("rtp", k) :
+        ForgeRtp(kind, k, base, SeqNo(base))
+  \/ \E k \in Ssrcs : \E q \in ForgeSeqs(CtxOf(k)) :
+        \/ ForgeRtp("wrongkey", k, -1, q)
+        \/ \E base \in SentIdx("rtp", k) : ForgeRtp("reseq", k, base, q)
+  \/ \E k \in ForgedSsrcs : ForgeRtp("newssrc", k, -1, 0)
+
+ForgeRtcpAny ==
+  \/ \E kind \in RtcpForgeKinds \cap RtcpBaseKinds, k \in Ssrcs : \E base \in SentIdx("rtcp", k) :
+        ForgeRtcp(kind, k, base, base)
+  \/ \E k \in Ssrcs : \E x \in {0, rx[k].rtcp, rx[k].rtcp + 1, rx[k].rtcp + 5} :
+        \/ ForgeRtcp("wrongkey", k, -1, x)
+        \/ \E base \in SentIdx("rtcp", k) : ForgeRtcp("reindex", k, base, x)
+  \/ \E k \in ForgedSsrcs : ForgeRtcp("newssrc", k, -1, 1)
+
 Next ==
   /\ Len(hist) < MaxLen
   /\ \/ \E s \in Ssrcs : ProtectRtcp(s) \/ \E r \in 0..MaxRoc, q \in SeqAlpha : Protect(s, r * M + q)
      \/ \E p \in sent : Deliver(p)
-     \/ \E kind \in RtpForgeKinds, k \in AllSsrcs, q \in SeqAlpha :
-           \E base \in {-1} \cup {p.idx : p \in {pp \in sent : pp.proto = "rtp" /\ pp.ssrc = k}} :
-              ForgeRtp(kind, k, base, q)
-     \/ \E kind \in RtcpForgeKinds, k \in AllSsrcs :
-           \E base \in {-1} \cup {p.idx : p \in {pp \in sent : pp.proto = "rtcp" /\ pp.ssrc = k}} :
-              \E x \in 0..(MaxSent + 6) : ForgeRtcp(kind, k, base, x)
+     \/ ForgeRtpAny
+     \/ ForgeRtcpAny
      \/ Tick
 
 Spec == Init /\ [][Next]_vars
